@@ -1,1 +1,3 @@
 SPECIFICATION Spec
+CONSTANTS
+  Variant = "none"
